@@ -3,7 +3,9 @@ package main
 // `govc check <Cnn> <quick|thorough>`: decide one property, write evidence, print VIOLATION / KNOWN-FINDING lines.
 
 import (
+	"context"
 	"encoding/json"
+	"os/exec"
 	"go/types"
 	"fmt"
 	"os"
@@ -193,6 +195,9 @@ func (cc *checkCtx) report() int {
 	for _, o := range failing {
 		matched := false
 		for _, f := range findings {
+			if strings.HasPrefix(o.Name, "bounded:") && !o.knownOnly {
+				break // a new failing input of a bounded claim is never covered by a listed class
+			}
 			if f.kind == "finding" && f.prop == cc.prop && f.key == o.Name {
 				fmt.Printf("KNOWN-FINDING: property=%s %s %s\n", cc.prop, o.Name, f.text)
 				known = append(known, o.Name)
@@ -227,6 +232,15 @@ func (cc *checkCtx) report() int {
 	}
 	discharged := len(claimed) - len(failing)
 	level := "proof"
+	nProof := 0
+	for _, o := range claimed {
+		if o.Kind != "bounded" && o.Kind != "bounded-known" {
+			nProof++
+		}
+	}
+	if nProof == 0 && len(cc.bounded) > 0 {
+		level = "exploration"
+	}
 	assumptions := sortedKeys(cc.assume)
 	assumptions = append(assumptions,
 		"trusted: go/packages+go/types+go/ssa (x/tools v0.29.0) source-to-SSA translation; the govc VC generator and its Go semantics (DESIGN.md 2.2); SMT solvers z3 4.8.12, z3 5.1.0, cvc5 1.0.3",
@@ -270,6 +284,25 @@ func maxInt(a, b int) int {
 // finishEvidence adapts level-specific keys (bounded-only properties are reported as exploration).
 func (cc *checkCtx) finishEvidence(ev *Evidence) {
 	if len(cc.bounded) > 0 {
+		ev.Coverage["exhaustive"] = true
+		if ev.Level == "exploration" {
+			var rules []string
+			var samples []any
+			for _, b := range cc.bounded {
+				rules = append(rules, fmt.Sprintf("%v: %v", b["id"], b["rule"]))
+				if ss, ok := b["samples"].([]any); ok {
+					for _, x := range ss {
+						if len(samples) < 12 {
+							samples = append(samples, x)
+						}
+					}
+				}
+			}
+			ev.Coverage["rule"] = "BOUNDED stand-in (exhaustive execution of the real functions, injected in-package test): " + strings.Join(rules, " || ")
+			if len(samples) > 0 {
+				ev.Coverage["samples"] = samples
+			}
+		}
 		evals, distinct := 0, 0
 		for _, b := range cc.bounded {
 			if v, ok := b["evaluations"].(int); ok {
@@ -288,6 +321,86 @@ func (cc *checkCtx) finishEvidence(ev *Evidence) {
 func (cc *checkCtx) propertySpecific() {
 	cc.runLemmas()
 	cc.runAccessScans()
+	cc.runBounded()
+}
+
+var boundedPkgs = map[string][]string{ // property -> packages with a bounded harness (bounded/<pkg>_bounded_test.go)
+	"C13": {"core"}, "C15": {"core", "catalog"}, "C17": {"directive"}, "C19": {"catalog"},
+}
+
+// runBounded executes the bounded stand-ins (exhaustive execution of the REAL functions up to a stated bound; the
+// harness is injected with go test -overlay). They are labelled bounded and never counted as proved.
+func (cc *checkCtx) runBounded() {
+	pkgs := boundedPkgs[cc.prop]
+	if len(pkgs) == 0 {
+		return
+	}
+	e := cc.e
+	classes := map[string]string{}
+	for _, f := range loadFindings(filepath.Join(e.verif, "known_findings.txt")) {
+		if f.kind == "finding" && strings.HasPrefix(f.key, "bounded:") {
+			if i := strings.Index(f.text, "class="); i >= 0 {
+				rest := f.text[i+len("class="):]
+				if strings.HasPrefix(rest, "`") {
+					if j := strings.Index(rest[1:], "`"); j >= 0 {
+						classes[strings.TrimPrefix(f.key, "bounded:")] = rest[1 : 1+j]
+					}
+				}
+			}
+		}
+	}
+	cj, _ := json.Marshal(classes)
+	repl := map[string]string{}
+	var targets []string
+	for _, p := range pkgs {
+		repl[filepath.Join(e.repo, p, "zz_bounded_test.go")] = filepath.Join(e.verif, "bounded", p+"_bounded_test.go")
+		targets = append(targets, "./"+p)
+	}
+	ov, _ := json.Marshal(map[string]any{"Replace": repl})
+	ovf := filepath.Join(cc.dir, "bounded_ov.json")
+	os.WriteFile(ovf, ov, 0o644)
+	ctx, cancel := context.WithTimeout(context.Background(), 30*time.Minute)
+	defer cancel()
+	cmd := exec.CommandContext(ctx, "bash", "-c", fmt.Sprintf("cd %q && go test -overlay %q -vet=off -count=1 -timeout 25m -run '^TestBounded%s$' -v %s 2>&1", e.repo, ovf, cc.prop, strings.Join(targets, " ")))
+	cmd.Env = append(os.Environ(), "GOFLAGS=-mod=mod", "GOPROXY=off", "GOSUMDB=off", "GOTOOLCHAIN=local", "GOVC_BOUND_TIER="+cc.tier, "GOVC_KNOWN_CLASSES="+string(cj))
+	out, _ := cmd.CombinedOutput()
+	n := 0
+	for _, line := range strings.Split(string(out), "\n") {
+		i := strings.Index(line, "BOUNDED ")
+		if i < 0 {
+			continue
+		}
+		var r map[string]any
+		if json.Unmarshal([]byte(line[i+8:]), &r) != nil {
+			continue
+		}
+		if r["prop"] != cc.prop {
+			continue
+		}
+		n++
+		id, _ := r["id"].(string)
+		viol, _ := r["violations"].(float64)
+		known, _ := r["known_finding_instances"].(float64)
+		evals, _ := r["evaluations"].(float64)
+		dist, _ := r["distinct_nontrivial"].(float64)
+		cc.bounded = append(cc.bounded, map[string]any{"id": id, "evaluations": int(evals), "distinct_nontrivial": int(dist), "rule": r["rule"],
+			"exhaustive": r["exhaustive"], "samples": r["samples"], "violations": int(viol), "known_finding_instances": int(known), "label": "BOUNDED stand-in, not a proof"})
+		o := &Obligation{Name: "bounded:" + id, Kind: "bounded", Tags: []string{cc.prop}, Fn: "bounded", Solver: "bounded-exhaustive-execution", Result: "unsat",
+			Desc: fmt.Sprintf("%v", r["rule"])}
+		if viol > 0 {
+			o.Result = "sat"
+			o.Desc = fmt.Sprintf("%v -- first failing inputs: %v", r["rule"], r["witnesses"])
+			o.witness = fmt.Sprintf("%v", r["witnesses"])
+		}
+		cc.extra = append(cc.extra, o)
+		if known > 0 {
+			cc.extra = append(cc.extra, &Obligation{Name: "bounded:" + id, Kind: "bounded-known", Tags: []string{cc.prop}, Fn: "bounded", Solver: "bounded-exhaustive-execution", Result: "sat",
+				Desc: fmt.Sprintf("%d instances of the listed known-finding class, e.g. %v", int(known), r["known_finding_example"]), knownOnly: true})
+		}
+	}
+	if n == 0 {
+		cc.broken = append(cc.broken, "bounded decider produced no report: "+truncate(string(out), 600))
+	}
 }
 
 // runAccessScans: frame scans over the SSA of the whole repository. A field with a readers/writers declaration may
